@@ -99,8 +99,8 @@ Proof. exact push_run_log. Qed.
 (* ---- histories ---- *)
 From AV.Model Require Import Interp.
 From AV.Spec Require Import WorldSpec.
-From AV.Proofs Require Import WorldProofs.
-(** WHOLE HISTORIES: reserve / reserve_exact / shrink_to_fit / shrink_to are part of the history fragment of AV.Props.C01 - in the list specification they leave every vector's elements unchanged (sp_capacity) and C01_history_refines shows the machine agrees, whatever is interleaved with them; and len <= capacity holds for every vector in every state of every history. *)
+From AV.Proofs Require Import WorldCore WorldProofs CapHistory.
+(** WHOLE HISTORIES: reserve / reserve_exact / shrink_to_fit / shrink_to are part of the history fragment of AV.Props.C01 - in the list specification they leave every vector's elements unchanged (sp_capacity) and C01_history_refines shows the machine agrees, whatever is interleaved with them; and len <= capacity holds for every vector in every state of every history.  The PROMISES of the capacity calls hold at every step of every history of the fragment ([cap_promise]: a reserve / reserve_exact that returns leaves room for n more and changes nothing when there already was, a request whose length is not representable panics rather than returning; shrink_to_fit ends at exactly len, shrink_to(m) at exactly min(capacity, max(len, m)) - never growing, never below len; with_capacity(n) gives exactly n on the resizable backends): the one-call theorems above composed, through the glue of Interp.exec / run_step, with the fact that every state a history passes through is represented. *)
 Theorem C10_history_len_le_cap :
   forall (c : cfg) (ops : list op) (w : world) (st : astate) (rs : list sres),
          cfg_wf c ->
@@ -113,6 +113,32 @@ Theorem C10_history_len_le_cap :
            (run_hist c ops w).
 Proof. exact history_len_le_cap. Qed.
 
+(** one step of the fragment, from any represented world *)
+Theorem C10_capacity_call_promise :
+  forall (c : cfg) (w : world) (st : astate) (o : op) (r : sres),
+         cfg_wf c ->
+         WRep c w st ->
+         spec_step c st (unext (wuw w)) o = Some r ->
+         admissible c w o -> cap_promise c o w (run_step c None o w).
+Proof. exact step_cap_promise. Qed.
+
+(** every step of every history of the fragment *)
+Theorem C10_history_cap_promises :
+  forall (c : cfg) (ops : list op) (w : world) (st : astate) (rs : list sres),
+         cfg_wf c ->
+         WRep c w st ->
+         spec_run c st (unext (wuw w)) ops = Some rs ->
+         Admissible c w ops ->
+         Forall3 (fun (o : op) (w0 : world) (sr : step_result) => cap_promise c o w0 sr) ops
+           (worlds_before c ops w) (run_hist c ops w).
+Proof. exact history_cap_promises. Qed.
+
+(** non-vacuity: the 109-step example history (reserve beyond a fixed capacity, reserve, reserve_exact, shrink_to, shrink_to_fit, reserve of usize::MAX, with_capacity on two backends) *)
+Theorem C10_history_cap_promises_example :
+  Forall3 (fun (o : op) (w0 : world) (sr : step_result) => cap_promise ex_cfg o w0 sr) ex_ops
+           (worlds_before ex_cfg ex_ops init_world) (run_hist ex_cfg ex_ops init_world).
+Proof. exact ex_cap_promises. Qed.
+
 (* ---- end histories ---- *)
 Print Assumptions C10_reserve_noop.
 Print Assumptions C10_reserve_grows.
@@ -124,3 +150,6 @@ Print Assumptions C10_doubling.
 Print Assumptions C10_push_follows_growth_policy.
 Print Assumptions C10_amortised.
 Print Assumptions C10_history_len_le_cap.
+Print Assumptions C10_capacity_call_promise.
+Print Assumptions C10_history_cap_promises.
+Print Assumptions C10_history_cap_promises_example.
